@@ -305,6 +305,8 @@ def _malformed_classes():
         ("y0_3d", lambda: base(y0=torch.zeros(2, 2, 1))),
         ("y0_not_tensor", lambda: base(y0=[[0.0, 0.0]])),
         ("bm_batch_mismatch", lambda: base(bm=torchsde.BrownianInterval(0.0, 0.5, size=(3, 2), entropy=1))),
+        ("bm_batch_one_broadcastable", lambda: base(bm=torchsde.BrownianInterval(0.0, 0.5, size=(1, 2), entropy=1,
+                                                                             levy_area_approximation="space-time"))),
         ("bm_noise_mismatch", lambda: base(bm=torchsde.BrownianInterval(0.0, 0.5, size=(2, 3), entropy=1))),
         ("bm_1d", lambda: base(bm=torchsde.BrownianInterval(0.0, 0.5, size=(2,), entropy=1))),
         ("drift_state_mismatch", lambda: base(sde=plain(f=wrong_f))),
